@@ -11,9 +11,66 @@ import (
 	"github.com/hashicorp/hcl-lang/lang"
 	"github.com/hashicorp/hcl-lang/reference"
 	"github.com/hashicorp/hcl-lang/schema"
+	"github.com/hashicorp/hcl/v2"
 )
 
+// c02FailingPathInFront: a path whose context cannot be read stands BEFORE / BETWEEN / BEHIND the paths that hold the
+// declaration and the path origins pointing at it; every origin reported for the declaration names a file of the
+// path it is reported for (deterministic).
+func c02FailingPathInFront(run *Run) {
+	for failAt := 0; failAt < 4; failAt++ {
+		w := newWorld()
+		owner := map[string]string{}
+		var names []string
+		for i := 0; i < 4; i++ {
+			names = append(names, fmt.Sprintf("q%d", i))
+		}
+		// roles: the first readable path declares, the others refer to it
+		declPath := ""
+		var decl reference.Target
+		for i, nme := range names {
+			p := lang.Path{Path: nme, LanguageID: "hcl"}
+			file := nme + "_main.tf"
+			owner[file] = nme
+			pd := w.AddPath(nme, schema.NewBodySchema(), map[string]string{}, nil)
+			pd.Fail = i == failAt
+			if pd.Fail {
+				continue
+			}
+			rng := hcl.Range{Filename: file, Start: hcl.Pos{Line: 1, Column: 1, Byte: 0}, End: hcl.Pos{Line: 1, Column: 9, Byte: 8}}
+			if declPath == "" {
+				declPath = nme
+				decl = reference.Target{Addr: lang.Address{lang.RootStep{Name: "var"}, lang.AttrStep{Name: "x"}}, ScopeId: lang.ScopeId("variable"), RangePtr: &rng, DefRangePtr: &rng}
+				pd.Ctx.ReferenceTargets = reference.Targets{decl}
+				continue
+			}
+			pd.Ctx.ReferenceOrigins = reference.Origins{reference.PathOrigin{Range: rng, TargetAddr: decl.Addr, TargetPath: lang.Path{Path: declPath, LanguageID: "hcl"},
+				Constraints: reference.OriginConstraints{{OfScopeId: lang.ScopeId("variable")}}}}
+			_ = p
+		}
+		res := safeCall("ReferenceOriginsTargetingPos", func() (interface{}, error) {
+			return w.Dec.ReferenceOriginsTargetingPos(lang.Path{Path: declPath, LanguageID: "hcl"}, decl.RangePtr.Filename, decl.RangePtr.Start), nil
+		})
+		run.Res.Evaluations++
+		run.Count("failing_path_worlds")
+		loc := map[string]interface{}{"seed": run.Res.Seed, "kind": "c02-failing-path", "failing_path_index": failAt}
+		if res.Panic != "" {
+			continue
+		}
+		ros := res.Val.(decoder.ReferenceOrigins)
+		for _, ro := range ros {
+			run.Res.Hypotheses["world_ranges_checked"]++
+			if owner[ro.Range.Filename] != ro.Path.Path {
+				run.Violate(Violation{Key: "C02/wrong-file/ReferenceOriginsTargetingPos/origin-range-behind-unreadable-path",
+					Rule: "every emitted range names a file of the path it is reported for", Func: "ReferenceOriginsTargetingPos",
+					Detail: fmt.Sprintf("origin range names %q, a file of path %q, but is reported for path %q", ro.Range.Filename, owner[ro.Range.Filename], ro.Path.Path), Replay: loc})
+			}
+		}
+	}
+}
+
 func c02Worlds(run *Run, n int) {
+	c02FailingPathInFront(run)
 	for wi := 0; wi < n; wi++ {
 		r := rand.New(rand.NewSource(subSeed(run.Res.Seed, 2020000+wi)))
 		np := 2 + r.Intn(2)
